@@ -1,7 +1,7 @@
 (* C11 — column and table slices keep their structural invariants.  Statements only; proofs in
    CsFacts.v and SliceFacts.v.  The payload type V of a caller-built slice is the identity of a
    value array (a handle): "the very same array" is equality of payloads. *)
-From Sbdf Require Import Imp ImpCall Gen.Prog ImpBase ImpFactsCap ImpFactsCells ImpFactsGrow ImpFactsSlice ImpFactsCsAdd ImpFactsRelease.
+From Sbdf Require Import Imp ImpCall Gen.Prog ImpBase ImpFactsCap ImpFactsCells ImpFactsGrow ImpFactsSlice ImpFactsCsAdd ImpFactsCsAddFirst ImpFactsRelease.
 From Coq Require Import List.
 From Sbdf Require Import Slice CsFacts SliceFacts MdFacts.
 
@@ -206,6 +206,34 @@ End CsAdd.
 Print Assumptions C11_source_cs_add_property_mismatch.
 Print Assumptions C11_source_cs_add_property_clash.
 Print Assumptions C11_source_cs_add_property_room.
+
+(* the first property of a slice: both pointer arrays are allocated through sbdf_alloc (one slot each), the name is copied,
+   name and array go into slot 0 and the count becomes 1 - or the call stops at the first of the three allocations that fails
+   (for every oracle), the count is still 0 and every other block of the heap is as before *)
+Theorem C11_source_cs_add_property_first : forall k sx h cb values names0 props0 owned vb ty1 enc1 v11 o11 o12 ob1 oty1 cnt1 data1 ab ty2 enc2 v21 o21 o22 ob2 oty2 cnt2 data2 pre bytes post,
+  let m := pre ++ bytes ++ 0 :: post in
+  cs_block h cb values 0 names0 props0 owned -> as_ptr names0 = VNull -> as_ptr props0 = VNull ->
+  as_ptr values = VCell vb 0 -> va_block h vb ty1 enc1 v11 o11 o12 -> int_min <= enc1 <= int_max ->
+  (enc1 = SBDF_PLAINARRAYENCODINGTYPEID -> as_ptr o11 = VCell ob1 0 /\ obj_block h ob1 oty1 cnt1 data1) ->
+  va_block h ab ty2 enc2 v21 o21 o22 -> int_min <= enc2 <= int_max ->
+  (enc2 = SBDF_PLAINARRAYENCODINGTYPEID -> as_ptr o21 = VCell ob2 0 /\ obj_block h ob2 oty2 cnt2 data2) ->
+  int_min <= row_cnt_of enc1 v11 cnt1 <= int_max -> int_min <= row_cnt_of enc2 v21 cnt2 <= int_max ->
+  row_cnt_of enc1 v11 cnt1 = row_cnt_of enc2 v21 cnt2 ->
+  Forall (fun b => b <> 0) bytes -> zlen bytes + 1 <= int_max ->
+  let L := List.length h in let k1 := next_fail k in let k2 := next_fail k1 in
+  exists f0, forall f, (f0 <= f)%nat -> exists fin,
+    callC prog_env f prog_sbdf_cs_add_property [VCell cb 0; VPtr RIn (zlen pre); VCell ab 0] m k sx h =
+      OReturn (VInt (if (k =? 0) || (k1 =? 0) || (k2 =? 0) then SBDF_ERROR_OUT_OF_MEMORY else SBDF_OK)) fin /\
+    inb fin = (if (k =? 0) || (k1 =? 0) || (k2 =? 0) then m else str_mem m bytes []) /\
+    exists hf, Imp.lookup cells_var (vars fin) = Some (VHeap hf) /\
+      (if k =? 0 then hf = h
+       else if k1 =? 0 then nth_error hf cb = Some (Some [values; VInt 0; names0; VCell L 0; VInt owned]) /\ List.length hf = S L
+       else if k2 =? 0 then nth_error hf cb = Some (Some [values; VInt 0; VCell (S L) 0; VCell L 0; VInt owned]) /\ List.length hf = S (S L)
+       else nth_error hf cb = Some (Some [values; VInt 1; VCell (S L) 0; VCell L 0; VInt owned]) /\
+            nth_error hf L = Some (Some [VCell ab 0]) /\ nth_error hf (S L) = Some (Some [VPtr RIn (zlen m + 4)]) /\ List.length hf = S (S L)) /\
+      (forall x, x <> cb -> (x < L)%nat -> nth_error hf x = nth_error h x).
+Proof. exact cs_add_first_source. Qed.
+Print Assumptions C11_source_cs_add_property_first.
 
 (* the capacity rule makes the cases exhaustive and the first numbers concrete *)
 Example C11_capacity_values : map array_capacity [0; 1; 2; 3; 4; 5; 7; 8; 11; 12] = [0; 1; 2; 4; 4; 7; 7; 11; 11; 17].
